@@ -45,6 +45,43 @@ def _mk_sys(mk, kind, dim, mkind, ckind="linear"):
     return sl.make_system(S, M, mk, kind, dim, mkind=mkind, ckind=ckind, hausdorff=True)
 
 
+class _Pref:
+    """mk proxy that prefixes every symbol name (a second, independent metric for the same system)."""
+
+    def __init__(self, mk, pre):
+        self._mk, self._pre = mk, pre
+
+    def __getattr__(self, k):
+        f = getattr(self._mk, k)
+        if not callable(f):
+            return f
+
+        def g(*a, **kw):
+            if a and isinstance(a[0], str):
+                a = (self._pre + a[0],) + a[1:]
+            return f(*a, **kw)
+        return g
+
+
+def _remetric(mk, sysm, info, dim, mkind, q, p, t):
+    """The metric of a system is re-assigned after the system has been used with the same state and time (what the metric adapters
+    do at the end of an adaptive stage): every flow property must hold for the system as it is *now*."""
+    if mkind == "identity":
+        raise Skip("identity metric: nothing to re-assign")
+    s = _state(q.copy(), p.copy())
+    sysm.h2_flow(s, t)
+    sysm.h2(_state(q.copy(), p.copy()))
+    sysm.dh2_dmom(_state(q.copy(), p.copy()))
+    if hasattr(sysm, "dh2_flow_dmom"):
+        try:
+            sysm.dh2_flow_dmom(_state(q.copy(), p.copy()), t)
+        except (ValueError, NotImplementedError):
+            pass  # (t == 0: Matrix * 0 is documented as unsupported; the warm-up call is not the subject)
+    metric2, Md2 = sl.make_metric(M, _Pref(mk, "B"), mkind, dim)
+    sysm.metric = metric2
+    info["metric_dense"] = lambda q_: Md2
+
+
 def _trig(mk, items):
     """Add angle-addition / parity instances for every SIN/COS argument occurring in the items."""
     if not mk.symbolic:
@@ -57,14 +94,16 @@ def _trig(mk, items):
         mk.require(ax)
 
 
-def prob_flow(mk, kind, dim, mkind):
+def prob_flow(mk, kind, dim, mkind, remetric=False):
     sysm, info = _mk_sys(mk, kind, dim, mkind)
     q, p = mk.arr("q", dim), mk.arr("p", dim)
     t1, t2 = mk.real("t1"), mk.real("t2")
+    if remetric:
+        _remetric(mk, sysm, info, dim, mkind, q, p, t1)
     Md = info["metric_dense"](list(q))
     Mi = ml.inv(Md)
     items = []
-    tag = f"{kind}/{mkind}"
+    tag = f"{kind}/{mkind}" + ("/metric re-assigned" if remetric else "")
     # ---- h1 flow: position unchanged, momentum shifted by -t * dh1/dq
     s = _state(q.copy(), p.copy())
     g = sysm.dh1_dpos(_state(q.copy(), p.copy()))
@@ -113,11 +152,13 @@ def prob_flow(mk, kind, dim, mkind):
     return items
 
 
-def prob_flow_dmom(mk, kind, dim, mkind, ckind="linear"):
+def prob_flow_dmom(mk, kind, dim, mkind, ckind="linear", remetric=False):
     """dh2_flow_dmom (constrained systems) == Jacobian blocks of h2_flow w.r.t. the initial momentum."""
     sysm, info = _mk_sys(mk, kind, dim, mkind, ckind)
     q, p = mk.arr("q", dim), mk.arr("p", dim)
     t = mk.nonzero("t1")  # an integrator never takes a zero time step (Matrix * 0 is documented as unsupported)
+    if remetric:
+        _remetric(mk, sysm, info, dim, mkind, q, p, t)
     try:
         dpos_dmom, dmom_dmom = sysm.dh2_flow_dmom(_state(q.copy(), p.copy()), t)
     except ValueError as e:
@@ -185,6 +226,15 @@ def cases(tier):
                             timeout_s=900))
             out.append(Case(f"flow_dmom/{kind}/2/{mkind}", run_group,
                             {"probs": [("flow_dmom", {"kind": kind, "dim": 2, "mkind": mkind})]}, timeout_s=900))
+            if mkind in ("diag", "scaled") or tier == "thorough" and mkind != "identity":
+                out.append(Case(f"flow_dmom_remetric/{kind}/2/{mkind}", run_group,
+                                {"probs": [("flow_dmom", {"kind": kind, "dim": 2, "mkind": mkind, "remetric": True})]}, timeout_s=900))
+                out.append(Case(f"flow_remetric/{kind}/2/{mkind}", run_group,
+                                {"probs": [("flow", {"kind": kind, "dim": 2, "mkind": mkind, "remetric": True})]}, timeout_s=900))
+    for kind in ("euclid", "gauss"):
+        for mkind in ("diag", "scaled") + (("dense_eig" if kind == "gauss" else "dense",) if tier == "thorough" else ()):
+            out.append(Case(f"flow_remetric/{kind}/2/{mkind}", run_group,
+                            {"probs": [("flow", {"kind": kind, "dim": 2, "mkind": mkind, "remetric": True})]}, timeout_s=900))
     return out
 
 
